@@ -110,7 +110,8 @@ def code_data_from_json(value: object) -> CodeData:
             tuple(instruction_from_json(i) for i in block) for block in value["blocks"]
         )
     if "type" in value:
-        tp = value["type"]
+        # Copy, so that we do not modify the value that was passed in
+        tp = copy(value["type"])
         if "args" in tp:
             tp["args"] = Args(**lists_values_to_tuples(tp["args"]))
         value["type"] = Function(**lists_values_to_tuples(tp))
